@@ -281,6 +281,34 @@ impl Check for C14 {
         };
         cx.count(&format!("levels:{levels}"));
         cx.count_n("chunks-produced", chunks1.len() as u64 + 1);
+        // ---- a later version of the same document, encrypted right afterwards in this process: same length, same
+        // beginning and end, a few other bytes in between; what is produced for it must decode to IT
+        if cx.rng.gen_bool(0.5) {
+            let mut later = data.clone();
+            let (lo, hi) = if len > 3 * 4096 { (len / 3, 2 * len / 3) } else { (0, len) };
+            for _ in 0..cx.rng.gen_range(1..=8) {
+                let at = cx.rng.gen_range(lo..hi);
+                later[at] ^= cx.rng.gen_range(1..=255u8);
+            }
+            let lb = Bytes::from(later.clone());
+            cx.eval();
+            cx.count("later-versions-of-the-same-length");
+            match catch(|| autonomi::self_encryption::encrypt(lb)) {
+                Ok(Ok((lmap, lchunks))) => {
+                    let mut lstore: HashMap<[u8; 32], Vec<u8>> = HashMap::new();
+                    for c in lchunks.iter().chain(std::iter::once(&lmap)) {
+                        lstore.insert(c.name().0, c.value().to_vec());
+                    }
+                    match reference_unpack(lmap.value(), &lstore) {
+                        Ok((_, bytes)) if bytes == later => {}
+                        Ok((_, bytes)) => cx.violation("later-version-encrypted-as-other-bytes", format!("a second version of the {len}-byte input (same length, other bytes in the middle) was encrypted to chunks that decode to {}", if bytes == data { "the FIRST version" } else { "something else" }), w.clone()),
+                        Err(e) => cx.violation("written-format-unreadable", format!("later version: harness-side traversal failed: {e}"), w.clone()),
+                    }
+                }
+                Ok(Err(e)) => cx.violation("encryptable-input-rejected", format!("later version of {len} bytes: {e}"), w.clone()),
+                Err(p) => cx.violation("encrypt-panicked", format!("later version of {len} bytes: {p}"), w.clone()),
+            }
+        }
 
         // ---- fetch through the real client
         let mut cs = ClientSim::new(&mut cx.rng);
